@@ -517,6 +517,30 @@ def rule_semantics_of_helpers(repo, rep):
                       "(demonstrated: AVERAGE_POOL_2D, VALID, 10x10 kernel)")
     if n_p < 4:
         raise AnalysisError(f"padding-conditional constraints: only {n_p} found")
+    # (w, h) getters unpacked in their order inside the constraint checkers ("Stride width ..." must test the width)
+    from .shared import pair_unpack_lint
+
+    if pair_unpack_lint(repo, rep, "C16-b", ["tflite_supported_operators", "tflite_model_semantic"]) < 6:
+        raise AnalysisError("constraint checkers: too few (w, h) unpackings found")
+    # MEAN: "Reduction in Depth axis is supported if at least one of H,W,C are of size 1": the sizes looked at are all three for a
+    # 3-D input and the last three for a 4-D input
+    ma = repo.mod("tflite_model_semantic").func("TFLiteSemantic.constraint_mean_axis")
+    n_m = 0
+    for i_ in ast.walk(ma):
+        if not (isinstance(i_, ast.If) and "dims" in str(norm(i_.test))):
+            continue
+        ranks = {c_.value for c_ in ast.walk(i_.test) if isinstance(c_, ast.Constant) and isinstance(c_.value, int)}
+        for g in ast.walk(i_):
+            if isinstance(g, ast.comprehension) and str(norm(g.iter)).startswith("input_shape"):
+                it_ = str(norm(g.iter))
+                for r in sorted(ranks & {3, 4}):
+                    n_m += 1
+                    want = "input_shape" if r == 3 else "input_shape[1:]"
+                    rep.check(it_ == want or (r == 4 and it_ == "input_shape[-3:]") or (r == 3 and it_ == "input_shape[-3:]"), "C16-b", "ethosu/vela/tflite_model_semantic.py:TFLiteSemantic.constraint_mean_axis",
+                              f"for a {r}-D input the depth rule looks at H, W and C (`{want}`)",
+                              f"iterates `{it_}` for rank {r}: one of H, W, C is left out (or the batch is counted), so a MEAN over depth that the listed rule allows is rejected (or one it forbids accepted)")
+    if n_m < 2:
+        raise AnalysisError("constraint_mean_axis: depth rule not recognised")
 
     # (1) negative axis: a valid model may give axis = -1; constraints indexing with it must add the rank first
     n = 0
